@@ -11,6 +11,7 @@ for id in "$@"; do
   out=$(./check "$id" quick 2>&1 | grep -v WARNING)
   rc=$?
   echo "== $id: $(echo "$out" | grep -c '^VIOLATION') violation line(s), $(( $(date +%s) - s )) s"
+  python3 -c "import json; c=json.load(open('/verif/evidence/$id.json'))['coverage']; print('   failing cases: oracle', c.get('impl_oracle_failures'), 'model', c.get('model_disagreements'), 'of', c.get('evaluations'))"
   echo "$out" | grep '^VIOLATION\|^KNOWN' | cut -c1-200 | head -4
   for f in $(echo "$out" | grep '^VIOLATION' | sed 's/.*replay=\([^ ]*\).*/\1/' | head -2); do grep -h '^# property oracle\|^# corresp\|^# ' "$f" | head -2 | cut -c1-260; done
 done
